@@ -264,4 +264,5 @@ def run(ctx):
             ctx.violation('C03|%s|%s|%s' % (o['model'], law, o['shape'] if o['kind'] == 'regular' else 'constant'),
                           '%s fitted on %s data (n=%d) violates %s %s' % (o['model'], o['shape'], o['n'], law, o.get('trace', '')),
                           {'model': o['model'], 'shape': o['shape'], 'n': o['n'], 'law': law})
+    ctx.traces += len(obs)          # observation tables / samples of the real code judged by TLC
     ctx.exhaustive = False
